@@ -1,7 +1,168 @@
-/- C10 line-protocol driver (core-only). Stub until the property's model lands. -/
+/- C10 line-protocol driver (core-only).
+
+`C10 run <policy> <maturity>:<mtp0> <txdefs> <ops>` — the whole history on one line; the answer is one
+observation per op (`|`-separated): result class, pool ids, spend index, orphans, orphan index.
+See harness/p10/p10.go for the grammar (the Go side builds real transactions from the same line). -/
+import BV.C10.Model
 namespace BV.C10.Driver
+open BV.C10
+
+def splitList (s : String) (sep : String) : List String :=
+  if s == "-" || s == "" then [] else s.splitOn sep
+
+def parseBool? (s : String) : Option Bool :=
+  if s == "1" then some true else if s == "0" then some false else none
+
+def parsePolicy? (s : String) : Option Policy :=
+  match s.splitOn "," with
+  | [ns, rr, mo, ms, mf, dp, fr] => do
+    pure ⟨← parseBool? ns, ← parseBool? rr, ← mo.toInt?, ← ms.toNat?, ← mf.toNat?, ← parseBool? dp, ← parseBool? fr⟩
+  | _ => none
+
+/-- input `txid.idx.seq[.recipe]` -/
+def parseIn? (s : String) : Option (OutPoint × Nat) :=
+  match s.splitOn "." with
+  | t :: i :: q :: _ => do pure (⟨← t.toNat?, ← i.toNat?⟩, ← q.toNat?)
+  | _ => none
+
+/-- times on the line are offsets from the harness's base time; the model's clock starts at `timeBase` -/
+def timeBase : Int := 1500000000
+
+def relTime? (s : String) : Option Nat := do
+  let t := timeBase + (← s.toInt?)
+  if t < 0 then none else some t.toNat
+
+/-- `g` on the line: the median time of the genesis-only chain (regtest genesis timestamp) -/
+def genesisTime : Nat := 1296688602
+
+/-- lock time: `0`, `h<height>` or `t<offset>` -/
+def parseLock? (s : String) : Option Nat :=
+  if s == "0" then some 0
+  else if s.startsWith "h" then (s.drop 1).toString.toNat?
+  else if s.startsWith "t" then relTime? (s.drop 1).toString
+  else none
+
+def bit (n k : Nat) : Bool := (n / 2^k) % 2 = 1
+
+/-- `id:ins:outs:lock:ver:fee:vsize:ssize:size:bits` -/
+def parseTx? (s : String) : Option TxAbs :=
+  match s.splitOn ":" with
+  | [id, ins, outs, lock, _ver, fee, vsize, ssize, size, bits] => do
+    let id ← id.toNat?
+    let ins ← (splitList ins ",").mapM parseIn?
+    let nOuts := (splitList outs ",").length
+    let b ← bits.toNat?
+    let vsize ← vsize.toNat?
+    if vsize = 0 then none
+    -- ids are ranks: a transaction can only reference what existed before it
+    if !ins.all (fun p => p.1.txid < id) then none
+    pure { id := id, ins := ins.map (·.1), seqs := ins.map (·.2), nOuts := nOuts,
+           lockTime := ← parseLock? lock, fee := ← fee.toNat?, vsize := vsize, ssize := ← ssize.toNat?,
+           size := ← size.toNat?, sane := bit b 0, coinbase := bit b 1, valuesOk := bit b 2, std := bit b 3,
+           seqLockOk := bit b 4, sigOk := bit b 5, highPrio := bit b 6, scriptsOk := bit b 7 }
+  | _ => none
+
+def cbTx (id nOuts : Nat) : TxAbs :=
+  { id := id, ins := [], seqs := [], nOuts := nOuts, lockTime := 0, fee := 0, vsize := 100, ssize := 100,
+    size := 100, sane := true, coinbase := true, valuesOk := true, std := true, seqLockOk := true,
+    sigOk := true, highPrio := false, scriptsOk := true }
+
+inductive Cmd
+  | op (o : Op)
+  | template
+  | skip            -- `Z:k:m`: the Go side runs the next k disconnects and m connects as one reorganisation
+
+def findDef (defs : List TxAbs) (id : String) : Option TxAbs := do
+  let n ← id.toNat?
+  defs.find? (fun t => t.id = n)
+
+def parseIds? (s : String) : Option (List Nat) := (splitList s ",").mapM (·.toNat?)
+
+def parseOp? (defs : List TxAbs) (s : String) : Option Cmd :=
+  match s.splitOn ":" with
+  | ["P", id, ao, rl, tag, ev, prio] => do
+    pure (.op (.process (← findDef defs id) (← parseBool? ao) (← parseBool? rl) (← tag.toNat?) (← ev.toNat?) (← parseIds? prio)))
+  | ["A", id, isNew, rl] => do pure (.op (.maybeAccept (← findDef defs id) (← parseBool? isNew) (← parseBool? rl)))
+  | ["K", id] => do pure (.op (.check (← findDef defs id)))
+  | ["R", id, red] => do pure (.op (.remove (← findDef defs id) (← parseBool? red)))
+  | ["D", id] => do pure (.op (.removeDoubleSpends (← findDef defs id)))
+  | ["O", id, prio] => do pure (.op (.processOrphans (← findDef defs id) (← parseIds? prio)))
+  | ["X", id] => do pure (.op (.removeOrphan (← findDef defs id)))
+  | ["G", tag] => do pure (.op (.removeOrphansByTag (← tag.toNat?)))
+  | ["C", cb, cbOuts, mtp, txs, _ts, prio] => do
+    let txs ← (splitList txs ",").mapM (findDef defs)
+    pure (.op (.connect ⟨cbTx (← cb.toNat?) (← cbOuts.toNat?), txs, ← relTime? mtp⟩ (← parseIds? prio)))
+  | ["U"] => some (.op .disconnect)
+  | ["T"] => some .template
+  | ["Z", _, _] => some .skip
+  | _ => none
+
+/-! ### canonical output -/
+
+def joinWith (sep : String) (l : List String) : String := sep.intercalate l
+
+def sortNat (l : List Nat) : List Nat := l.mergeSort (fun a b => a ≤ b)
+
+def opLe (a b : OutPoint) : Bool := a.txid < b.txid || (a.txid = b.txid && a.idx ≤ b.idx)
+
+def showOp (x : OutPoint) : String := toString x.txid ++ "." ++ toString x.idx
+
+def showRej : Rej → String
+  | .dup => "dup" | .nonstd => "nonstd" | .invalid => "invalid" | .lowfee => "lowfee"
+
+def ids (l : List Nat) : String := if l.isEmpty then "-" else joinWith "," (l.map toString)
+
+def showResult : Result → String
+  | .none => "-"
+  | .err r => "e:" ++ showRej r
+  | .orphan => "orph"
+  | .missing ps => "m:" ++ ids (sortNat ps).eraseDups
+  | .accepted l => "a:" ++ ids l
+  | .checked fee vs cs => "k:" ++ toString fee ++ ":" ++ toString vs ++ ":" ++ ids (sortNat cs)
+  | .badBlock => "bb"
+
+def showPool (s : Pool) : String :=
+  let p := sortNat (s.pool.map (·.tx.id))
+  let sp := (s.spent.mergeSort (fun a b => opLe a.1 b.1)).map (fun e => showOp e.1 ++ ">" ++ toString e.2.id)
+  let o := (s.orphans.mergeSort (fun a b => a.1.id ≤ b.1.id)).map (fun e => toString e.1.id ++ "." ++ toString e.2)
+  let bp := (s.byPrev.mergeSort (fun a b => if a.1 = b.1 then a.2.id ≤ b.2.id else opLe a.1 b.1)).map
+    (fun e => showOp e.1 ++ ">" ++ toString e.2.id)
+  "p=" ++ ids p ++ ";s=" ++ (if sp.isEmpty then "-" else joinWith "," sp) ++
+  ";o=" ++ (if o.isEmpty then "-" else joinWith "," o) ++ ";b=" ++ (if bp.isEmpty then "-" else joinWith "," bp)
+
+/-- orphans that share a redeemed outpoint with another orphan: which of them Go's map iteration
+tries first is not observable, so both sides stop comparing (`nd`) once such an orphan leaves the
+orphan pool inside an operation that runs `processOrphans`. -/
+def contested (s : Pool) : List Nat :=
+  (s.byPrev.filter (fun p => s.byPrev.any (fun q => q.1 = p.1 && q.2.id ≠ p.2.id))).map (·.2.id)
+
+def runsOrphans : Op → Bool
+  | .process .. => true
+  | .processOrphans .. => true
+  | .connect .. => true
+  | _ => false
+
+def runCmds (pol : Policy) : State → List Cmd → List String
+  | _, [] => []
+  | st, .skip :: rest => "z" :: runCmds pol st rest
+  | st, .template :: rest =>
+    -- Spec answer: the pooled set is minable whenever height/MTP have not moved back since admission
+    ((if st.pool.pool.all (·.fresh) then "t:1;" else "t:?;") ++ showPool st.pool) :: runCmds pol st rest
+  | st, .op o :: rest =>
+    let r := step pol st o
+    if runsOrphans o && (contested st.pool).any (fun id => !r.1.pool.inOrphans id) then ["nd"]
+    else (showResult r.2 ++ ";" ++ showPool r.1.pool) :: runCmds pol r.1 rest
 
 def handle : List String → String
-  | _ => "unimplemented"
+  | ["run", pol, ch, defs, ops] =>
+    match parsePolicy? pol, ch.splitOn ":", (splitList defs ";").mapM parseTx? with
+    | some pol, [cm, mtp0], some defs =>
+      match cm.toNat?, (if mtp0 == "g" then some genesisTime else none), (splitList ops ";").mapM (parseOp? defs) with
+      | some cm, some mtp0, some cmds =>
+        if !(defs.map (·.id)).Nodup then "bad-op" else
+        joinWith "|" (runCmds pol (State.init cm mtp0) cmds)
+      | _, _, _ => "bad-op"
+    | _, _, _ => "bad-op"
+  | _ => "bad-op"
 
 end BV.C10.Driver
